@@ -25,6 +25,7 @@ def run(ctx):
     cases = []
     hdr_lens = [1, 2, 35, 255, 256, 65536] + ([] if ctx.quick else [65535, 70000, 131072 + 35])
     datas = [b"", b"x", E.canon({"a": 1}), rng.randbytes(300), b"\x04\xff\x00\x00\x00\x01", rng.randbytes(65)]
+    block_datas = [rng.randbytes(n) for n in (64, 4096, 65535, 65536, 65537, 131072)]       # hash block sizes and 64 KiB multiples
     nbits = 10 if ctx.quick else 64
     for hl in hdr_lens:
         hdr = rng.randbytes(hl)
@@ -79,6 +80,27 @@ def run(ctx):
                     s = ed_sign(SEEDS[0], hashlib.sha256(msg).digest())
                 add({"other_headers": hdr.hex(), "signature": s.hex()}, k, data, "wrong-" + tag)
 
+    for bd in block_datas:
+        g = mk(0, bd, E.HDR)
+        cases.append({"w": wire.case("verify_gpg_signature", g, PUBHEX[0], bd), "meta": {"tag": "valid-len%d" % len(bd)}})
+        cases.append({"w": wire.case("verify_gpg_signature", mk(0, bd + bd, E.HDR), PUBHEX[0], bd), "meta": {"tag": "doubled-len%d" % len(bd)}})
+        cases.append({"w": wire.case("verify_gpg_signature", g, PUBHEX[0], bd[:-1]), "meta": {"tag": "short-len%d" % len(bd)}})
+    # every value of each of the first six header octets (version, type, public-key algorithm, HASH algorithm, length): the digest is
+    # SHA-256 whatever the header claims; and a digest by the claimed algorithm is NOT accepted
+    data = E.canon({"sweep": 1})
+    for pos in range(6):
+        for b in range(256):
+            hdr = bytearray(E.HDR); hdr[pos] = b; hdr = bytes(hdr)
+            cases.append({"w": wire.case("verify_gpg_signature", mk(0, data, hdr), PUBHEX[0], data), "meta": {"tag": "octet%d=%d" % (pos, b)}})
+    for b, alg in ((1, "md5"), (2, "sha1"), (8, "sha256"), (9, "sha384"), (10, "sha512"), (11, "sha224")):
+        hdr = bytearray(E.HDR); hdr[3] = b; hdr = bytes(hdr)
+        dg = hashlib.new(alg, E.frame(data, hdr)).digest()
+        for hb in (b, 8):
+            h2 = bytearray(hdr); h2[3] = hb; h2 = bytes(h2)
+            dg = hashlib.new(alg, E.frame(data, h2)).digest()
+            cases.append({"w": wire.case("verify_gpg_signature", {"other_headers": h2.hex(), "signature": ed_sign(SEEDS[0], dg).hex()}, PUBHEX[0], data),
+                          "meta": {"tag": "digest-by-%s" % alg}})
+
     def rel(c, io, mo):
         return None if io == mo else "verdict differs: implementation %s, model %s" % (core.impl_class(io), core.model_class(mo))
 
@@ -95,6 +117,32 @@ def run(ctx):
         return None
     core.run_stream(ctx, core.Stream("verify_gpg_signature: payloads x header lengths %s x {valid, bit flips of signature/header/payload/key, boundary shifts, wrong framings}" % hdr_lens,
                                      cases, rel, oracle, nontrivial=lambda c, i, m: True))
+
+    # ---- several OpenPGP entries in one envelope: each entry is judged on its own digest, whatever came before it in the map
+    import itertools
+    P = {"multi": ["é", 1.5]}
+    ents = {
+        "valid": lambda i: E.gpg_sig(i, P), "valid-hdr1": lambda i: E.gpg_sig(i, P, hdr=b"\x04"), "flip-sig": lambda i: dict(E.gpg_sig(i, P), signature=E.flip(E.gpg_sig(i, P)["signature"])),
+        "flip-hdr": lambda i: dict(E.gpg_sig(i, P), other_headers=E.flip(E.gpg_sig(i, P)["other_headers"])), "other-payload": lambda i: E.gpg_sig(i, {"other": 1}),
+        "raw": lambda i: E.raw_sig(i, P), "misfiled": lambda i: E.gpg_sig((i + 1) % 4, P),
+    }
+    mcases = []
+    for n in (2, 3):
+        for combo in itertools.product(ents, repeat=n):
+            if n == 3 and ctx.quick and combo.count("valid") + combo.count("valid-hdr1") == 0:
+                continue
+            sigs = {PUBHEX[i]: ents[e](i) for i, e in enumerate(combo)}
+            for t in (1, 2):
+                mcases.append({"w": wire.case("verify_signable", {"signatures": sigs, "signed": P}, PUBHEX[:3], t, True), "meta": {"tag": list(combo)}})
+
+    def moracle(c, io):
+        _, env, K, t, gpg = wire.dec(c["w"])
+        n = len(E.counting_keys(env, K, True))
+        if io.startswith("O") != (n >= t):
+            return "%d entries verify per RFC 4880 framing, threshold %d, implementation says %s (entries in order: %s)" % (n, t, core.impl_class(io), c["meta"]["tag"])
+        return None
+    core.run_stream(ctx, core.Stream("verify_signable(gpg=True): every ordered pair/triple of entry kinds {valid, corrupted signature/header, other payload, raw, mis-filed}",
+                                     mcases, lambda c, io, mo: None if (core.impl_class(io) == "accept") == (core.model_class(mo) == "accept") else "accept/reject differs", moracle))
 
     # ---- GnuPG leg: detached signatures from the real gpg binary through the library's own GPG signing path
     nsig = 3 if ctx.quick else 20
@@ -117,6 +165,10 @@ def run(ctx):
             docs.append(md)
             gcases.append({"w": wire.case("gpg_sign_file", {"signatures": {}, "signed": md}, fprs), "meta": {"tag": "sign-file"}})
             gcases.append({"w": wire.case("gpg_sign_dict", {"signatures": {}, "signed": md}, fprs[i % n]), "meta": {"tag": "sign-dict"}})
+        # sign, edit the signed portion, sign again with the same OpenPGP key: the entry must be the FRESH signature over the edited payload
+        for i, md in enumerate(docs[:2]):
+            gcases.append({"w": wire.case("gpg_sign_edit_sign", {"signatures": {}, "signed": md}, fprs[i % len(fprs)], dict(md, version=md["version"] + 1, note="edited")),
+                           "meta": {"tag": "sign-edit-sign", "q": qs[i % len(fprs)]}})
         gcases.append({"w": wire.case("gpg_sign_via", b"data", fprs[0], True), "meta": {"tag": "via"}})
         gcases.append({"w": wire.case("gpg_sign_via", b"data", fprs[0].upper(), False), "meta": {"tag": "via-bad"}})
         gcases.append({"w": wire.case("gpg_sign_via", "data", fprs[0], False), "meta": {"tag": "via-bad"}})
@@ -148,6 +200,10 @@ def run(ctx):
             vcases.append({"w": wire.case("verify_gpg_signature", ent, PUBHEX[0], data), "meta": {"tag": "gnupg-reject"}})
             vcases.append({"w": wire.case("verify_signable", dict(env2, signed=dict(signed, version=99)), [q], 1, True), "meta": {"tag": "gnupg-reject"}})
             vcases.append({"w": wire.case("verify_signable", env2, [q], 1, False), "meta": {"tag": "gnupg-reject"}})
+        elif tag == "sign-edit-sign":
+            q = c["meta"]["q"]
+            vcases.append({"w": wire.case("verify_signable", out, [q], 1, True), "meta": {"tag": "gnupg-accept"}})
+            vcases.append({"w": wire.case("verify_signable", dict(out, signed=wire.dec(c["w"])[1]["signed"]), [q], 1, True), "meta": {"tag": "gnupg-reject"}})
         elif tag == "sign-file":
             md = out["signed"]
             prev = M.envelope(dict(md, version=md["version"] - 1, note="prev"), ())
